@@ -13,6 +13,7 @@ import QuaiVerif.Driver.Mem
 import QuaiVerif.Driver.Ledger
 import QuaiVerif.Driver.Validate
 import QuaiVerif.Driver.Reorg
+import QuaiVerif.Driver.Crash
 /- qvdriver: `qvdriver <area>` reads protocol lines on stdin, answers one line per line. -/
 open QuaiVerif
 
@@ -31,6 +32,7 @@ def main (args : List String) : IO UInt32 := do
   | ["lockup"] => ioLoop Lockup.step stdin stdout {}; return 0
   | ["utxo"] => ioLoop Utxo.step stdin stdout {}; return 0
   | ["mem"] => ioLoop Mem.step' stdin stdout (); return 0
+  | ["c11"] => ioLoop Crash.step stdin stdout (); return 0
   | ["c10"] => ioLoop Reorg.step stdin stdout {}; return 0
   | ["c07"] => ioLoop Validate.step stdin stdout {}; return 0
   | ["c06"] => ioLoop Ledger.step stdin stdout {}; return 0
